@@ -476,6 +476,9 @@ func (s *session) visitNode(sprint *sprint, run flows.Run, node flows.Node, trig
 
 			// check if this action has errored the run
 			if run.Status() == flows.RunStatusFailed {
+				// an earlier action in this node might have pushed a flow which mustn't now be entered
+				s.pushedFlow = nil
+
 				return step, nil, "", nil
 			}
 		}
